@@ -780,6 +780,151 @@ def stack_stream(ctx, exe, d, rng, consts):
         ctx.sample(dict(kind="stack", expr=first[0], expected=first[1], impl=first[2]))
 
 
+
+# ------------------------------------------------------------------------------------ part 4: deep / long / cyclic DATA
+# Every C-recursive (or Scheme-recursive) consumer of data, at depths around and well beyond its depth bound, one
+# process per case, on the normal build with the default 8 MB C stack and with a reduced C stack (unbounded recursion
+# then shows up at 10^5 instead of 10^6).  Outcome must be a value or a Scheme error object (or the out-of-stack
+# error at top level, exit 70); never a signal, never a hang.
+DEEP_LINKS = [  # (label, builder of a datum nested {n} deep around LEAF)
+    ("car", "(nest-car {n} LEAF)"), ("cadr", "(nest-cadr {n} LEAF)"), ("dot", "(nest-dot {n} LEAF)"),
+    ("vec1-0", "(nest-vec {n} 1 0 LEAF)"), ("vec3-0", "(nest-vec {n} 3 0 LEAF)"), ("vec3-1", "(nest-vec {n} 3 1 LEAF)"),
+    ("vec3-2", "(nest-vec {n} 3 2 LEAF)"), ("mixed", "(nest-mixed {n} LEAF)"),
+]
+DEEP_PRINTERS = [("write-simple", "(printed write-simple X)"), ("write", "(printed write X)"), ("display", "(printed display X)"),
+                 ("write-shared", "(printed write-shared X)")]
+
+
+def deep_cases(thorough):
+    """(name, expression, depth) — the expression is the body of a thunk run under a handler"""
+    out = []
+    depths = [9990, 10010, 120000] + ([1000000] if thorough else [])
+    for ll, build in DEEP_LINKS:
+        for pn, pr in DEEP_PRINTERS:
+            for n in depths:
+                if pn != "write-simple" and n > 120000:
+                    continue            # the Scheme printers stop at the VM stack limit, long before
+                if not thorough and pn in ("display", "write-shared") and ll not in ("car", "vec3-0"):
+                    continue
+                out.append(("print:%s:%s" % (pn, ll), pr.replace("X", build.replace("LEAF", "1")), n))
+        for n in depths:
+            two = "(let ((a %s) (b %s)) (list (%%s a b) (%%s a %s)))" % (build.replace("LEAF", "1"), build.replace("LEAF", "1"), build.replace("LEAF", "2"))
+            out.append(("c-equal:%s" % ll, two.replace("%s", "c-equal?"), n))
+            if n <= 120000:
+                out.append(("equal:%s" % ll, two.replace("%s", "equal?"), n))
+            out.append(("hash:%s" % ll, "(hash %s)" % build.replace("LEAF", "1"), n))
+            out.append(("eval-quote:%s" % ll, "(eval (list 'quote %s) deep-env)" % build.replace("LEAF", "1"), n))
+    for n in depths:
+        out.append(("print:write-simple:synclo", "(printed write-simple (nest-synclo {n} 'x))", n))
+    big = [100000, 1000000] + ([5000000] if thorough else [])
+    for n in big:
+        for nm, e in (("length", "(length (long-list {n}))"), ("length-improper", "(length (long-improper {n}))"),
+                      ("list?", "(list (list? (long-list {n})) (list? (long-improper {n})))"),
+                      ("list-copy", "(length (list-copy (long-list {n})))"), ("list-copy-improper", "(pair? (list-copy (long-improper {n})))"),
+                      ("append", "(length (append (long-list {n}) (long-list {n}) '(1)))"), ("reverse", "(length (reverse (long-list {n})))"),
+                      ("list->vector", "(vector-length (list->vector (long-list {n})))"), ("vector->list", "(length (vector->list (make-vector {n} 0)))"),
+                      ("map", "(length (map (lambda (x) x) (long-list {n})))"), ("for-each", "(for-each (lambda (x) x) (long-list {n}))"),
+                      ("apply-list", "(length (apply list (long-list {n})))"), ("apply-plus", "(apply + (long-list {n}))"),
+                      ("apply-lambda-rest", "(apply (lambda r (length r)) (long-list {n}))"),
+                      ("list->string", "(string-length (list->string (make-list {n} #\\a)))"), ("string->list", "(length (string->list (make-string {n} #\\a)))"),
+                      ("string->symbol", "(string->symbol (make-string {n} #\\a))"),
+                      ("symbol->string", "(string-length (symbol->string (string->symbol (make-string {n} #\\b))))"),
+                      ("string-append-apply", "(string-length (apply string-append (make-list {n} \"ab\")))"),
+                      ("print-long", "(printed write-simple (long-list {n}))"), ("print-long-improper", "(printed write-simple (long-improper {n}))"),
+                      ("write-long", "(printed write (long-list {n}))"),
+                      ("equal-long", "(list (equal? (long-list {n}) (long-list {n})) (c-equal? (long-improper {n}) (long-improper {n})))"),
+                      ("hash-long", "(hash (long-list {n}))"), ("memv-long", "(memv 2 (long-list {n}))"), ("assv-long", "(assv 2 (map list (long-list {n})))"),
+                      ("list-tail", "(list-tail (long-list {n}) {n})"), ("vector-map", "(vector-length (vector-map (lambda (x) x) (make-vector {n} 0)))"),
+                      ("eval-long-app", "(eval (cons 'list (long-list {n})) deep-env)"), ("eval-long-begin", "(eval (cons 'begin (long-list {n})) deep-env)"),
+                      ("eval-quote-long", "(length (eval (list 'quote (long-list {n})) deep-env))"),
+                      ("read-long", "(length (read (open-input-string (string-append \"(\" (apply string-append (make-list {n} \"1 \")) \")\"))))")):
+            out.append(("long:" + nm, e, n))
+    for n in ([3000, 30000] + ([300000] if thorough else [])):
+        out.append(("num:number->string", "(string-length (number->string (expt 7 {n})))", n))
+        out.append(("num:string->number", "(exact? (string->number (make-string {n} #\\7)))", n))
+        out.append(("num:print-bignum", "(printed write-simple (expt 7 {n}))", n))
+        out.append(("num:read-bignum", "(exact? (read (open-input-string (make-string {n} #\\7))))", n))
+    edepths = [8000, 9000, 120000] + ([1000000] if thorough else [])
+    for n in edepths:
+        for nm, e in (("opcode", "(eval (nest-expr {n} 'car ''(1)) deep-env)"), ("app", "(eval (nest-expr {n} 'list 1) deep-env)"),
+                      ("lambda-call", "(eval (nest-expr2 {n} (lambda (x) (list (list 'lambda '() x))) 1) deep-env)"),
+                      ("lambda", "(procedure? (eval (nest-expr2 {n} (lambda (x) (list 'lambda '() x)) 1) deep-env))"),
+                      ("if", "(eval (nest-expr2 {n} (lambda (x) (list 'if x 1 2)) #t) deep-env)"),
+                      ("if-tail", "(eval (nest-expr2 {n} (lambda (x) (list 'if #t x 2)) #t) deep-env)"),
+                      ("begin", "(eval (nest-expr {n} 'begin 1) deep-env)"), ("set", "(eval (list 'let '((v 1)) (nest-expr2 {n} (lambda (x) (list 'set! 'v x)) 1)) deep-env)"),
+                      ("arith", "(eval (nest-expr2 {n} (lambda (x) (list '+ 1 x)) 1) deep-env)"), ("not", "(eval (nest-expr {n} 'not #t) deep-env)"),
+                      ("operator", "(eval (nest-expr2 {n} (lambda (x) (list x)) 'list) deep-env)"),
+                      ("let", "(eval (nest-expr2 {n} (lambda (x) (list 'let (list (list 'v x)) 'v)) 1) deep-env)"),
+                      ("cond", "(eval (nest-expr2 {n} (lambda (x) (list 'cond (list x 1) '(else 2))) #t) deep-env)"),
+                      ("and", "(eval (nest-expr {n} 'and #t) deep-env)"), ("define-body", "(eval (list 'let '() (nest-expr2 {n} (lambda (x) (list 'define '(f) x)) 1) 2) deep-env)"),
+                      ("quasiquote-unquote", "(eval (nest-expr2 {n} (lambda (x) (list 'quasiquote (list 'a (list 'unquote x)))) 1) deep-env)"),
+                      ("quasiquote-template", "(eval (list 'quasiquote (nest-car {n} 1)) deep-env)"),
+                      ("quasiquote-levels", "(eval (nest-expr {n} 'quasiquote 'x) deep-env)"),
+                      ("quasiquote-vector", "(eval (list 'quasiquote (nest-vec {n} 2 0 1)) deep-env)"),
+                      ("let-syntax", "(eval (nest-expr2 {n} (lambda (x) (list 'let-syntax '() x)) 1) deep-env)"),
+                      ("synclo", "(eval (nest-synclo {n} 1) deep-env)"),
+                      ("read-parens", "(read (open-input-string (string-append (make-string {n} #\\() (make-string {n} #\\)))))"),
+                      ("read-quotes", "(read (open-input-string (string-append (make-string {n} #\\') \"x\")))"),
+                      ("read-vectors", "(read (open-input-string (string-append (apply string-append (make-list {n} \"#(\")) (make-string {n} #\\)))))"),
+                      ("read-dotted", "(read (open-input-string (string-append (apply string-append (make-list {n} \"(a . \")) \"b\" (make-string {n} #\\)))))"),
+                      ("read-datum-comment", "(read (open-input-string (string-append (apply string-append (make-list {n} \"#;\")) (apply string-append (make-list {n} \"1 \")) \"2\")))"),
+                      ("read-unterminated", "(read (open-input-string (make-string {n} #\\()))")):
+            out.append(("expr:" + nm, e, n))
+    for nm, e in (("write-simple:car", "(printed write-simple (cycle-car))"), ("write-simple:cdr", "(printed write-simple (cycle-cdr))"),
+                  ("write-simple:vec0", "(printed write-simple (cycle-vec 0))"), ("write-simple:vec1", "(printed write-simple (cycle-vec 1))"),
+                  ("write-simple:vec2", "(printed write-simple (cycle-vec 2))"), ("write:car", "(printed write (cycle-car))"),
+                  ("write:vec", "(printed write (cycle-vec 1))"), ("display:cdr", "(printed display (cycle-cdr))"),
+                  ("equal:car", "(equal? (cycle-car) (cycle-car))"), ("equal:cdr", "(equal? (cycle-cdr) (cycle-cdr))"), ("equal:vec", "(equal? (cycle-vec 0) (cycle-vec 0))"),
+                  ("c-equal:car", "(c-equal? (cycle-car) (cycle-car))"), ("c-equal:vec", "(c-equal? (cycle-vec 2) (cycle-vec 2))"),
+                  ("hash:car", "(hash (cycle-car))"), ("hash:cdr", "(hash (cycle-cdr))"), ("hash:vec", "(hash (cycle-vec 1))"),
+                  ("length:cdr", "(length (cycle-cdr))"), ("list?:cdr", "(list? (cycle-cdr))"),
+                  ("eval:car", "(eval (cycle-car) deep-env)"), ("eval:cdr", "(eval (cycle-cdr) deep-env)"), ("eval-quote:car", "(pair? (eval (list 'quote (cycle-car)) deep-env))"),
+                  ("eval-quote:vec", "(vector? (eval (list 'quote (cycle-vec 0)) deep-env))"),
+                  ("read:label", "(printed write-simple (read (open-input-string \"#0=(#0# . #0#)\")))")):
+        out.append(("cyclic:" + nm, e, 0))
+    return out
+
+
+def _limit_stack(kb):
+    def f():
+        if kb:
+            soft, hard = resource.getrlimit(resource.RLIMIT_STACK)
+            resource.setrlimit(resource.RLIMIT_STACK, (kb * 1024, hard))
+        resource.setrlimit(resource.RLIMIT_AS, (6 << 30, 6 << 30))     # a runaway case must not eat the machine
+    return f
+
+
+def run_deep_case(dflt, prelude, expr, stack_kb, timeout, tag):
+    path = os.path.join(B.SCRATCH, "c01_deep_%d_%s.scm" % (os.getpid(), tag))
+    open(path, "w").write(prelude + "\n(verif-deep (lambda () %s))\n" % expr)
+    t0 = time.time()
+    try:
+        r = subprocess.run([os.path.join(dflt, "chibi-scheme"), path], capture_output=True, encoding="utf-8", errors="replace",
+                           timeout=timeout, env=B.chibi_env(dflt), preexec_fn=_limit_stack(stack_kb))
+        rc, out, err = r.returncode, r.stdout, r.stderr
+    except subprocess.TimeoutExpired:
+        rc, out, err = "TIMEOUT", "", ""
+    try:
+        os.unlink(path)
+    except OSError:
+        pass
+    return rc, out, err, time.time() - t0
+
+
+def classify_deep(rc, out, err):
+    """'V' value, 'E' error object to the handler, 'T' error object at top level (exit 70), else the failure"""
+    first = (out.strip().split("\n") or [""])[-1]
+    if rc == 0 and first.startswith("V "):
+        return "V"
+    if rc == 0 and first.startswith("E "):
+        return "E"
+    if rc == 70 and ("out of stack space" in err + out or "out of memory" in err + out or "ERROR" in err + out):
+        return "T"
+    if rc == "TIMEOUT":
+        return "hang"
+    return "crash"
+
+
 def _z(s):
     return -int(s[1:], 16) if s.startswith("-") else int(s, 16)
 
